@@ -171,5 +171,14 @@ mod bits {
     #[kani::proof]
     #[kani::unwind(66)]
     fn c03_extend_1_8() { extend(1, 8) }
+    #[kani::proof]
+    #[kani::unwind(66)]
+    fn c03_extend_1_16() { extend(1, 16) }
+    #[kani::proof]
+    #[kani::unwind(66)]
+    fn c03_extend_1_32() { extend(1, 32) }
+    #[kani::proof]
+    #[kani::unwind(66)]
+    fn c03_extend_1_64() { extend(1, 64) }
 }
 
